@@ -30,6 +30,7 @@ type verifPassOpts struct {
 	createOutcomes int  // 1 = ok only; 2 = + other error; 4 = + AlreadyExists + AdmissionRefused
 	deleteMayFail  bool
 	cfgTimeouts    bool // pending / force-delete / ttl defaults symbolic
+	noPending      bool // ... but no pending timeout
 	apiMayFail     bool
 }
 
@@ -64,12 +65,12 @@ func verifSetupPass(o verifPassOpts) *verifPass {
 	j := p.j
 	p.cfg = &configv1alpha1.JobExecutionConfig{}
 	if o.cfgTimeouts {
-		if vz.Bool("cfg.hasPending") {
+		if !o.noPending && vz.Bool("cfg.hasPending") {
 			v := vz.IntRange("cfg.pendingSecs", 0, 1<<20)
 			p.cfg.DefaultPendingTimeoutSeconds = pointer.Int64(v)
 			p.pendingSecs = v
 		}
-		if vz.Bool("job.hasPending") {
+		if !o.noPending && vz.Bool("job.hasPending") {
 			v := vz.IntRange("job.pendingSecs", -1, 1<<20)
 			j.rj.Spec.Template.TaskPendingTimeoutSeconds = pointer.Int64(v)
 			if v >= 0 {
@@ -357,6 +358,29 @@ func VerifH_C12_deadlines() {
 		job:          verifJobOpts{maxRefs: maxRefs, parallel: 0, started: 1, allowKill: true, allowAdmErr: true, maxAttemptsHi: 2, inv8: true, oneResult: true},
 		taskDeleting: true, cfgTimeouts: true, deleteMayFail: vz.Thorough(), createOutcomes: 1,
 	})
+	p.verifCheckDeadlines()
+}
+
+// VerifH_C12_twoTasks: two live tasks of a parallel Job, each possibly being
+// deleted since its own instant: every deadline is judged per task.
+func VerifH_C12_twoTasks() {
+	p := verifSetupPass(verifPassOpts{
+		job:          verifJobOpts{maxRefs: 2, parallel: 2, started: 1, allowKill: true, maxAttemptsHi: 1, inv8: true, twoLive: true, noRunning: true, concreteTimes: true},
+		taskDeleting: true, cfgTimeouts: true, noPending: true, createOutcomes: 1,
+	})
+	p.verifCheckDeadlines()
+	n := 0
+	for _, r := range p.j.refs {
+		if r.task != nil && !r.task.DeletionTS.IsZero() {
+			n++
+		}
+	}
+	if n == 2 {
+		vz.Cover("two-tasks-deleting")
+	}
+}
+
+func (p *verifPass) verifCheckDeadlines() {
 	j := p.j
 	err := p.run()
 	now := j.now
